@@ -274,12 +274,12 @@ Definition is_gz_name (name : list N) : bool :=
 
 (* str::trim_end_matches(pat): remove the suffix as often as it occurs; fuel = length bounds the repetitions *)
 Definition ends_with (suf l : list N) : bool :=
-  (length suf <=? length l)%nat && bytes_eqb (skipn (length l - length suf) l) suf.
+  (length suf <=? length l)%nat && bytes_eqb (skipn (length l - length suf)%nat l) suf.
 Fixpoint trim_end_matches (fuel : nat) (suf l : list N) : list N :=
   match fuel with
   | O => l
   | S f => if negb (is_nil suf) && ends_with suf l
-           then trim_end_matches f suf (firstn (length l - length suf) l) else l
+           then trim_end_matches f suf (firstn (length l - length suf)%nat l) else l
   end.
 (* MultiFileIterator::open_file *)
 Definition sample_name_of_file (name : list N) : list N :=
